@@ -23,6 +23,7 @@ from nucs.solvers import consistency_algorithms as CA
 from nucs.solvers.solver import get_solution
 
 sys.setrecursionlimit(20000)
+PASS_JUMP_BUDGET = 2_000_000
 
 
 class Engine:
@@ -79,7 +80,14 @@ class Engine:
 
     # ---- transitions (real code) ----------------------------------------------------------------------------------
     def propagate(self, cons_idx=None):
-        return int(CA.CONSISTENCY_ALG_FCTS[self.cons_idx if cons_idx is None else cons_idx](*self.alg_args))
+        from mc import budget
+
+        S.ensure_watch()
+        budget.start(PASS_JUMP_BUDGET)  # a pass that does not terminate is C04's subject; here it only must not hang the check
+        try:
+            return int(CA.CONSISTENCY_ALG_FCTS[self.cons_idx if cons_idx is None else cons_idx](*self.alg_args))
+        finally:
+            budget.stop()
 
     def open_decisions(self):
         t = int(self.top[0])
@@ -158,7 +166,13 @@ def explore(eng: Engine, acc, monitor: Monitor, heuristics=("min",), max_states=
         monitor.on_node(eng, acc)
         memo[key] = ()  # cycles are impossible in a terminating search; a revisit on the path is reported by C04
         node = eng.snapshot()
-        status = eng.propagate()
+        try:
+            status = eng.propagate()
+        except Exception as e:  # noqa  (BudgetExceeded / IndexError ...: judged by C04 / C16, reported here as a cap)
+            ctr["capped"] = True
+            acc.caps.append(f"exploration of {eng.spec.get('tag')} stopped: {type(e).__name__} in a propagation pass")
+            eng.restore(node)
+            return ()
         ctr["transitions"] += 1
         monitor.after_propagate(eng, acc, node, status)
         after = eng.snapshot()
